@@ -5,11 +5,16 @@ Mode: lattice sweep (complete products, nothing sampled). Sub-checks ("sub" of a
  one-dim     one case per (1-d model spec, h).  Inside, the complete product
              thresholds a = f*l, f in {0.4, 0.5, 0.6} (l = left truncation of the credit grid)  x  symmetric flag {T, F}
              x recovery {0, 0.4} x maturity {1, 5} x spread {50, 300 bp} x h0 {h, 1e-6}.
+             Model specs: mc.alphabets.model_specs plus "reinit" twins (same parameter values reached as the calibration
+             helpers do: parameter object re-assigned, initialisation(), constructor): quick = first parameter set of each
+             family, Levy and exponential; thorough = every spec.
  cf-copula   one case per (copula model spec, Levy / exponential margins, h): the closed forms on ALL threshold tuples
              (3^d), monotonicity along the threshold alphabet, the survival / spread / implied-spread maps, the CDS legs.
+             Plus, per margin tuple, the model whose margins are all built by the reinit route (first copula).
  chain-copula one case per (copula model spec, h, threshold tuple, symmetric flag): the real MarkovChainLevyCopula on the
              real CTMCCredit grid (INVERSION on the symmetric grid, BINARYSEARCHTREEADAPTED on the asymmetric one, as
              scripts/benchmark/first_to_default.py does), the default-time underlyings on scripted jump paths.
+             Quick: exponential margins, plus (first copula, unequal threshold tuple) plain Levy margins and reinit margins.
 
 Oracles
  (i)   box rate.  Sum over the chain states with at least one coordinate below its threshold of the state's jump rate
@@ -21,10 +26,10 @@ Oracles
               margin's integrate, and quadrature of the margin's own density);
        d>=2:  inclusion-exclusion over I of the mass of {l_i <= x_i < a_i, i in I} x {l_j <= x_j <= r_j, j not in I} computed
               from the JOINT, untruncated measure with mc.oracle.ref_rectangle_mass (truncating the margins and re-applying
-              the copula is a different measure and deliberately not the oracle).
+              the copula is a different measure and deliberately not the oracle: see "not judged" below).
        Pre-condition stated by the property, checked under its own key: the threshold is the grid's middle() of the two
        states around it.
- (ii)  un-restricted closed form.  CFLevyModel._theta(a) = nu((-inf, a]) (quadrature of the density);
+ (ii)  un-restricted closed form.  CFLevyModel._theta(a) = nu((-inf, a]) (quadrature of the density, and nu.integrate);
        CFLevyCopulaModel._theta(a) = inclusion-exclusion over I of the mass of {x_i < a_i, i in I}, from
        model._mass_nd with -inf lower ends (free coordinates over (-inf, inf)) and, independently, from ref_rectangle_mass;
        theta - theta_box >= 0 (mass of the default region outside the box).
@@ -32,11 +37,37 @@ Oracles
  (iv)  survival_probability = exp(-theta t); cds_spread / first_to_default_par_spread = (1-R) theta;
        implied_cds_threshold(cds_spread(a)) = a; cds_spread(implied_cds_threshold(s)) brackets s within 1e-10 in the
        threshold; implied_cds_spread(pv(s)) = s with pv(s) = (1-R) theta/(r+theta) (1-e^{-(r+theta)T}) - s (1-e^{-(r+theta)T})/(r+theta).
- (v)   CDS.evaluate(tau) * df(T) = (1-R) e^{-r tau} 1{tau <= T} - s (1 - e^{-r min(T, tau)})/r on scripted default times, and its
-       expectation under tau ~ Exp(theta) (deterministic quadrature of the real evaluate) = the closed-form pv, which
-       implied_cds_spread maps back to s.  DefaultTime / NthDefaultTimes / DefaultTimeNthUnderlying on scripted jump paths
-       made of the chain's own states = time of the first jump strictly below the threshold (n-th smallest for the n-th
-       default): this is what makes "state below its threshold" the chain's default region.
+ (v)   CDS.evaluate(tau) * df(T) = (1-R) e^{-r tau} 1{tau <= T} - s (1 - e^{-r min(T, tau)})/r on scripted default times (also
+       through Product.__call__ = notional * payoff, the engine's route), and its expectation under tau ~ Exp(theta)
+       (deterministic quadrature of the real evaluate) = the closed-form pv, which implied_cds_spread maps back to s.
+       DefaultTime / NthDefaultTimes / DefaultTimeNthUnderlying on scripted jump paths made of the chain's own states
+       (no jump at all; one and two jumps; three in the thorough 1-d tier) = time of the first jump strictly below the
+       threshold (n-th smallest for the n-th default): this is what makes "state below its threshold" the chain's default
+       region.
+
+Histories (the objects of (i)-(v) are also judged AFTER public operations on them; R, s, theta of the oracle are those the
+object carries / the model it holds at the time of the call; the violation key ends in ":after=<op>+<op>"):
+ payoff      ONE CDS object, priced before each operation; every sequence of <= 2 operations of
+             PAYOFF_OPS = spread re-assigned | recovery_rate re-assigned | a second CDS with other values built and used in
+             between | deepcopy | update(LOG) + process(times, path) (the hooks Product calls): pointwise (v) after each
+             history; the expectation / implied-spread part after the histories that change spread and / or recovery.
+ pricer      ONE CFLevyModel / CFLevyCopulaModel, used at every threshold before each operation; every sequence of <= 2 of
+             PRICER_OPS = public attribute `model` / `levy_copula_model` re-assigned to a second model (1-d: same family,
+             donor parameters; copula: margins in reversed order) | a second pricer on the other model used in between |
+             deepcopy | all public methods called: theta, survival probability and par spread must be those of the model held
+             now (reference: nu.integrate, checked against quadrature by (ii) / ref_rectangle_mass).
+ chain       ONE chain on ONE credit grid with the shared model object, rates read before each operation; CHAIN_OPS = a second
+             chain built on the same grid object | initialisation(product) (CDS on the (first-to-)default time, what
+             Engine.price does) | deepcopy | reset_one_simulation_cost + reset_sampling_cost | a chain for another threshold
+             built in between | the sampler draws 16 states (global numpy generator seeded and restored around the draw; the
+             drawn values are not observed). 1-d: every sequence of <= 2 operations on fresh objects at the first threshold
+             of the symmetric flag, every single operation elsewhere; d >= 2: one cumulative history (the operations in
+             menu order, (i) re-judged after each) on the unequal threshold tuple (0.6, 0.5[, 0.4]) of every model / h / flag.
+ underlying  each default-time class through: _value_log; value; value after update(LOG); value after update(LOG) then
+             update(IDENDITY); value of the deepcopy of an updated object; Product.underlying_value (keywords), fresh and
+             after Product.update(LOG) on a deepcopy (d >= 2: the last five on the paths of full corner jumps only). A second
+             object of the class with other thresholds (1-d: between a+eps and -h; d >= 2: the reversed tuple) is evaluated in
+             between on every path and judged against its own thresholds.
 
 Outside the alphabet (statement silent), counted and never an alarm:
  * thresholds not strictly inside (l, -h): the credit axis l, a-eps, a+eps, -h is not increasing there (VG default, h = 0.1,
@@ -44,7 +75,17 @@ Outside the alphabet (statement silent), counted and never an alarm:
  * spreads that no threshold in [-10, -h0] attains (finite-activity models with a small negative mass);
  * default time exactly equal to the maturity (a null event of the closed form), default time 0;
  * implied_cds_spread and the CDS legs for models without an interest rate (plain Levy models): the closed form reads model.r;
- * jumps within 1e-9 of a threshold in the scripted paths (log/exp round trip of DefaultTime.value).
+ * jumps within 1e-9 of a threshold in the scripted paths (log/exp round trip of DefaultTime.value);
+ * grid.refine() on a credit grid (the threshold becomes a state: the statement's pre-condition "threshold on a cell
+   boundary" is gone); private attributes of the payoff (_T, _df) re-assigned;
+ * a model mutated IN PLACE while a pricer / copula model holds it (model.truncate_levy_measure after the pricer was built).
+   Not judged: LevyCopulaModel.truncate_levy_measure truncates the margins' own measures but leaves the tail integrals the
+   joint mass is built from (`_marginal_levy_measure`) untruncated. For the chain this is what makes (i) hold: its rates are
+   the JOINT measure's mass of each cell of the box (agreement 1e-17 with ref_rectangle_mass), whereas the copula re-applied
+   to truncated margins changes every cell (8e-4 relative in a 2-d HEM example). The by-product is that
+   CFLevyCopulaModel(chain.model)._theta mixes truncated singles with untruncated pair terms (7e-4 above the chain's default
+   rate); no library route evaluates a closed form on the chain's internal model, and the statement's "model restricted to
+   the grid's truncation" is the restricted joint measure, so neither value is demanded of it.
 """
 from __future__ import annotations
 
@@ -63,9 +104,11 @@ from mc import oracle as O
 PID = "C19"
 LEVEL = "exploration"
 RULE = (
-    "complete product of (model spec x spatial step) and, inside each, of thresholds {0.4,0.5,0.6}*l (all tuples in d=2,3) x "
-    "symmetric/asymmetric credit grid x recovery {0,0.4} x maturity {1,5} x spread {50,300bp}; a case is non-trivial when at "
-    "least one chain default-rate sum or closed-form intensity was compared with its reference; distinct = distinct case dict"
+    "complete product of (model spec incl. reinit twins x spatial step) and, inside each, of thresholds {0.4,0.5,0.6}*l (all "
+    "tuples in d=2,3) x symmetric/asymmetric credit grid x recovery {0,0.4} x maturity {1,5} x spread {50,300bp}; every "
+    "sequence of <= 2 operations of the payoff / pricer / 1-d chain menus and one cumulative history of the copula chain menu "
+    "on re-used objects; a case is non-trivial when at least one chain default-rate sum or closed-form intensity was compared "
+    "with its reference; distinct = distinct case dict"
 )
 ASSUMPTIONS = [
     "the pathos pool that MarkovChainLevyCopula's constructor uses for the small-jump diffusion matrix of infinite-variation "
@@ -74,6 +117,8 @@ ASSUMPTIONS = [
     "reference rectangle mass shares the copula function and the margins' integrate with the library (checked in C09/C11); "
     "in one dimension the reference is quadrature of the margin's own density",
     "thresholds are fractions of the grid's left truncation; h in {0.1, 0.05}; dimension <= 3",
+    "histories: at most two operations per object (copula chain: the six operations of the menu once each, in menu order); the "
+    "sampler's draw inside a chain history uses numpy's global generator, seeded before and restored after the draw",
 ]
 CHUNK = 8
 
@@ -125,7 +170,8 @@ def cases(tier):
     _warm()
     thorough = tier == "thorough"
     out = []
-    for ms in A.model_specs(tier, families=("hem", "merton", "vg", "cgmy")):
+    specs = A.model_specs(tier, families=("hem", "merton", "vg", "cgmy"))
+    for ms in specs:
         for h in HS:
             out.append({"sub": "one-dim", "model": ms, "h": h})
     cms = _copula_model_specs(tier)
@@ -144,6 +190,38 @@ def cases(tier):
                         for sym in (True, False):
                             out.append({"sub": "chain-copula", "model": dict(cm, exp=exp), "h": h, "fracs": list(fr),
                                         "symmetric": sym})
+    # ------------------------------------------------------------------ other construction routes / kinds of the same models, last
+    # construction route "reinit" (parameter object re-assigned, initialisation(), constructor): quick = the first parameter set
+    # of each family, Levy and exponential; thorough = every spec
+    seen = set()
+    for ms in A.with_reinit(specs):
+        if ms.get("via") != "reinit":
+            continue
+        if not thorough:
+            if (ms["family"], ms["exp"]) in seen:
+                continue
+            seen.add((ms["family"], ms["exp"]))
+        for h in HS:
+            out.append({"sub": "one-dim", "model": ms, "h": h})
+    # copula models whose margins are all built by the reinit route: every margin tuple with the first copula
+    twins = [dict(cm, via="reinit") for cm in cms if cm["copula"] == cms[0]["copula"]]
+    for exp in (True, False):
+        for cm in twins:
+            for h in (HS if thorough else HS[:1]):
+                out.append({"sub": "cf-copula", "model": dict(cm, exp=exp), "h": h})
+    for cm in twins:
+        for h in (HS if thorough else HS[:1]):
+            for sym in (True, False):
+                out.append({"sub": "chain-copula", "model": dict(cm, exp=True), "h": h, "fracs": FRACS[::-1][:len(cm["margins"])],
+                            "symmetric": sym})
+    if not thorough:  # plain Levy margins (the thorough tier has the full product): first copula, the unequal threshold tuple
+        for cm in cms:
+            if cm["copula"] != cms[0]["copula"]:
+                continue
+            for h in HS:
+                for sym in (True, False):
+                    out.append({"sub": "chain-copula", "model": dict(cm, exp=False), "h": h, "fracs": FRACS[::-1][:len(cm["margins"])],
+                                "symmetric": sym})
     return out
 
 
@@ -160,7 +238,7 @@ def _mclass(spec):
             s += ":g=m"
     else:
         s = fam + (":alt" if p else ":default")
-    return ("exp-" if spec.get("exp") else "") + s
+    return ("exp-" if spec.get("exp") else "") + s + ("[reinit]" if spec.get("via") == "reinit" else "")
 
 
 def _cop_label(c):
@@ -170,7 +248,8 @@ def _cop_label(c):
 
 
 def _cclass(spec):
-    return f"d={len(spec['margins'])}:{'exp-' if spec.get('exp') else ''}{'+'.join(spec['margins'])}:{_cop_label(spec['copula'])}"
+    return (f"d={len(spec['margins'])}:{'exp-' if spec.get('exp') else ''}{'+'.join(spec['margins'])}"
+            f"{'[reinit]' if spec.get('via') == 'reinit' else ''}:{_cop_label(spec['copula'])}")
 
 
 def _activity_class(nu):
@@ -182,6 +261,30 @@ def _activity_class(nu):
         return "infinite-variation"
     except Exception:
         return "activity-unknown"
+
+
+def _make_copula_model(spec, reverse=False):
+    """mc.alphabets.make_copula_model, plus: `via: "reinit"` builds every margin by the calibration helpers' route
+    (mc.alphabets.make_model), `reverse` lists the margins in the opposite order (a second model of the class)"""
+    from rpylib.model.utils import create_levy_copula_model
+
+    models = []
+    names = list(spec["margins"])[::-1] if reverse else list(spec["margins"])
+    for name in names:
+        ms = dict(A.MARGINS[name])
+        if spec.get("exp"):
+            ms = dict(ms, exp=True, r=0.02, d=0.0, spot=100.0)
+        if spec.get("via") == "reinit":
+            ms = dict(ms, via="reinit")
+        models.append(A.make_model(ms))
+    return create_levy_copula_model(models=models, copula=A.make_copula(spec["copula"]))
+
+
+def _other_model_spec(spec):
+    """a second model of the same family and kind with other parameter values everywhere (the donor set of mc.alphabets)"""
+    out = {k: v for k, v in spec.items() if k != "via"}
+    out["params"] = dict(A.DONOR_PARAMS[spec["family"]])
+    return out
 
 
 class _Obs(list):
@@ -262,54 +365,136 @@ def _tau_menu(T):
             ("after-maturity", 2.0 * T), ("never", INF)]
 
 
-def _check_cds_payoff(sh, obs, df, r, icls, thetas, pricer_spread):
-    """(v): CDS.evaluate on scripted default times, and its expectation under Exp(theta) against the closed-form legs.
-    thetas: list of (a, theta) of the library's closed form; pricer_spread(pv, a, R, T) = implied_cds_spread."""
+PAYOFF_OPS = ("spread", "recovery", "other-object", "deepcopy", "engine-hooks")
+PAYOFF_EXPECTATION_HISTORIES = ((), ("spread",), ("recovery",), ("spread", "recovery"), ("recovery", "spread"))
+NOTIONAL = 10_000.0
+
+
+def _histories(ops, depth):
+    """every sequence of at most `depth` operations of the menu, shortest first (the empty history is the fresh object)"""
+    out = [()]
+    for n in range(1, depth + 1):
+        out += list(itertools.product(ops, repeat=n))
+    return out
+
+
+def _hist_label(hist):
+    return "+".join(hist)
+
+
+def _other(menu, x):
+    return menu[(menu.index(x) + 1) % len(menu)]
+
+
+def _payoff_points(sh, obs, cds, df, r, R, T, s, hist, a0):
+    """(v) pointwise: the payoff object in its CURRENT public state (R, s) on the scripted default times, through
+    CDS.evaluate and through Product.__call__ (the engine's route: notional * payoff(tau))."""
+    from rpylib.product.product import Product
+    from rpylib.product.underlying import DefaultTime
+
+    after = f":after={_hist_label(hist)}" if hist else ""
+    df_T = float(df(T))
+    product = Product(payoff_underlying=DefaultTime(default_level=a0), payoff=cds, maturity=T, notional=NOTIONAL)
+    ok = True
+    for tcls, tau in _tau_menu(T):
+        exp_ = _pv_of_tau(tau, r, R, T, s)
+        for via in ("evaluate", "Product"):
+            if via == "evaluate":
+                got = float(cds.evaluate(tau)) * df_T
+                key = f"C19:payoff:CDS.evaluate:ne-leg-formulas:{tcls}{after}"
+            else:
+                got = float(product(tau)) / NOTIONAL * df_T
+                key = f"C19:payoff:Product(CDS):ne-notional-times-leg-formulas:{tcls}{after}"
+            obs.add(got)
+            sh.count("evaluations")
+            sh.count("payoff_points")
+            if not core.close(got, exp_, rtol=RTOL, atol=1e-13):
+                ok = False
+                sh.violation(key, f"CDS(R={R}, s={s}, T={T}, r={r}) after [{_hist_label(hist)}], {via}({tau})*df(T) = {got!r}, "
+                                  f"legs formula = {exp_!r}",
+                             {"R": R, "T": T, "spread": s, "tau": tau, "r": r, "got": got, "expected": exp_, "history": list(hist),
+                              "via": via})
+    return ok
+
+
+def _payoff_expectation(sh, obs, cds, df, r, R, T, s, hist, icls, thetas, pricer_spread):
+    """(v) in expectation: E[payoff(tau)] df(T), tau ~ Exp(theta), by quadrature of the real evaluate on (0, T) plus the
+    no-default atom = the closed-form pv, which implied_cds_spread maps back to the spread the payoff carries NOW."""
     from scipy.integrate import quad
 
+    after = f":after={_hist_label(hist)}" if hist else ""
+    df_T = float(df(T))
+    for a, theta in thetas:
+        f = lambda t: float(cds.evaluate(t)) * df_T * theta * math.exp(-theta * t)
+        v, e = quad(f, 0.0, T, epsabs=0.0, epsrel=1e-12, limit=200)
+        v += float(cds.evaluate(INF)) * df_T * math.exp(-theta * T)
+        dl, fl = _legs(theta, r, R, T)
+        ref = dl - s * fl
+        scale = dl + s * fl
+        sh.count("evaluations")
+        if e > 1e-10 * scale:
+            sh.count("oracle_inconclusive")
+        elif not core.close(v, ref, rtol=RTOL_Q, scale=scale):
+            sh.violation(f"C19:payoff:CDS.evaluate:expectation-ne-closed-form-pv:{icls}{after}",
+                         f"E[CDS payoff] under Exp(theta={theta!r}) = {v!r}, closed-form legs give {ref!r} (R={R}, s={s}, T={T}, "
+                         f"history [{_hist_label(hist)}])",
+                         {"a": a, "theta": theta, "R": R, "T": T, "spread": s, "quad": v, "closed_form": ref, "history": list(hist)})
+        else:
+            # and the pricer maps the payoff's own expectation back to the contract spread
+            s_imp = float(pricer_spread(v, a, R, T))
+            obs.add(s_imp)
+            sh.count("evaluations")
+            if not core.close(s_imp, s, rtol=1e-7, atol=1e-8):
+                sh.violation(f"C19:payoff:implied_cds_spread:expected-payoff-not-mapped-to-spread:{icls}{after}",
+                             f"implied_cds_spread(E[CDS payoff]) = {s_imp!r}, spread carried by the payoff {s} (history [{_hist_label(hist)}])",
+                             {"a": a, "R": R, "T": T, "spread": s, "pv": v, "implied": s_imp, "history": list(hist)})
+
+
+def _check_cds_payoff(sh, obs, df, r, icls, thetas, pricer_spread):
+    """(v): CDS.evaluate on scripted default times, and its expectation under Exp(theta) against the closed-form legs, on a
+    fresh payoff and after EVERY history of at most two operations of PAYOFF_OPS on that one payoff object (the payoff is
+    priced before each operation, as a spread ladder / par-spread search on a re-used product does).
+    thetas: list of (a, theta) of the library's closed form; pricer_spread(pv, a, R, T) = implied_cds_spread."""
+    from rpylib.process.process import ProcessRepresentation
     from rpylib.product.payoff import CDS
 
-    for R, T, s in itertools.product(RECOVERIES, MATURITIES, SPREADS):
-        try:
-            cds = CDS(recovery_rate=R, spread=s, maturity=T, discounting=df)
-            df_T = float(df(T))
-            for tcls, tau in _tau_menu(T):
-                got = float(cds.evaluate(tau)) * df_T
-                exp_ = _pv_of_tau(tau, r, R, T, s)
-                obs.add(got)
-                sh.count("evaluations")
-                sh.count("payoff_points")
-                if not core.close(got, exp_, rtol=RTOL, atol=1e-13):
-                    sh.violation(f"C19:payoff:CDS.evaluate:ne-leg-formulas:{tcls}",
-                                 f"CDS(R={R}, s={s}, T={T}, r={r}).evaluate({tau})*df(T) = {got!r}, legs formula = {exp_!r}",
-                                 {"R": R, "T": T, "spread": s, "tau": tau, "r": r, "got": got, "expected": exp_})
-            for a, theta in thetas:
-                # E[payoff(tau)] df(T), tau ~ Exp(theta): quadrature of the real evaluate on (0, T) + the no-default atom
-                f = lambda t: float(cds.evaluate(t)) * df_T * theta * math.exp(-theta * t)
-                v, e = quad(f, 0.0, T, epsabs=0.0, epsrel=1e-12, limit=200)
-                v += float(cds.evaluate(INF)) * df_T * math.exp(-theta * T)
-                dl, fl = _legs(theta, r, R, T)
-                ref = dl - s * fl
-                scale = dl + s * fl
-                sh.count("evaluations")
-                if e > 1e-10 * scale:
-                    sh.count("oracle_inconclusive")
-                elif not core.close(v, ref, rtol=RTOL_Q, scale=scale):
-                    sh.violation(f"C19:payoff:CDS.evaluate:expectation-ne-closed-form-pv:{icls}",
-                                 f"E[CDS payoff] under Exp(theta={theta!r}) = {v!r}, closed-form legs give {ref!r} (R={R}, s={s}, T={T})",
-                                 {"a": a, "theta": theta, "R": R, "T": T, "spread": s, "quad": v, "closed_form": ref})
-                else:
-                    # and the pricer maps the payoff's own expectation back to the contract spread
-                    s_imp = float(pricer_spread(v, a, R, T))
-                    obs.add(s_imp)
-                    sh.count("evaluations")
-                    if not core.close(s_imp, s, rtol=1e-7, atol=1e-8):
-                        sh.violation(f"C19:payoff:implied_cds_spread:expected-payoff-not-mapped-to-spread:{icls}",
-                                     f"implied_cds_spread(E[CDS payoff]) = {s_imp!r}, contract spread {s}",
-                                     {"a": a, "R": R, "T": T, "spread": s, "pv": v, "implied": s_imp})
-        except Exception as e:  # the library raising inside the alphabet
-            sh.violation(f"C19:payoff:CDS:raises-{type(e).__name__}:{icls}", f"{type(e).__name__}: {e}",
-                         {"R": R, "T": T, "spread": s})
+    a0 = thetas[0][0]
+    a0 = float(a0[0]) if isinstance(a0, (tuple, list)) else float(a0)
+    for R0, T, s0 in itertools.product(RECOVERIES, MATURITIES, SPREADS):
+        fresh_ok = True
+        for hist in _histories(PAYOFF_OPS, 2):
+            if not fresh_ok:  # a payoff that is wrong when fresh is reported once, not once per history
+                sh.count("histories_skipped_fresh_object_wrong")
+                continue
+            R, s = R0, s0
+            try:
+                cds = CDS(recovery_rate=R, spread=s, maturity=T, discounting=df)
+                for op in hist:
+                    float(cds.evaluate(0.5 * T)), float(cds.evaluate(2.0 * T)), float(cds(INF))  # "price" before the operation
+                    if op == "spread":
+                        s = _other(SPREADS, s)
+                        cds.spread = s
+                    elif op == "recovery":
+                        R = _other(RECOVERIES, R)
+                        cds.recovery_rate = R
+                    elif op == "other-object":  # a second payoff of the class, other values everywhere, used in between
+                        oth = CDS(recovery_rate=_other(RECOVERIES, R), spread=_other(SPREADS, s), maturity=_other(MATURITIES, T),
+                                  discounting=lambda t: math.exp(-2.0 * r * t))
+                        float(oth.evaluate(0.5 * T)), float(oth.evaluate(INF))
+                    elif op == "deepcopy":
+                        cds = copy.deepcopy(cds)
+                    elif op == "engine-hooks":  # what Product.update / Product.underlying_value call on the payoff
+                        cds.update(ProcessRepresentation.LOG)
+                        cds.process(np.array([0.0, T]), np.array([0.0, -0.1]))
+                sh.cls("payoff-history-depth-" + str(len(hist)))
+                ok = _payoff_points(sh, obs, cds, df, r, R, T, s, hist, a0)
+                if not hist:
+                    fresh_ok = ok
+                if hist in PAYOFF_EXPECTATION_HISTORIES:
+                    _payoff_expectation(sh, obs, cds, df, r, R, T, s, hist, icls, thetas, pricer_spread)
+            except Exception as e:  # the library raising inside the alphabet
+                sh.violation(f"C19:payoff:CDS:raises-{type(e).__name__}:{icls}", f"{type(e).__name__}: {e} (history [{_hist_label(hist)}])",
+                             {"R": R, "T": T, "spread": s, "history": list(hist)})
 
 
 def _check_formulas(sh, obs, comp, icls, pricer, a, theta, r, is_copula):
@@ -373,6 +558,119 @@ def _check_monotone(sh, comp, icls, d, theta_of):
             sh.cls("theta-strictly-increasing" if th_lo < th_hi else "theta-flat-between-alphabet-points")
 
 
+PRICER_OPS = ("reassign", "other-pricer", "deepcopy", "formulas")
+
+
+def _pricer_histories(sh, obs, comp, icls, attr, make_pricer, models, expected, a_list, r, is_copula, scales=None):
+    """Histories on ONE closed-form pricer object. models = [model, other model]; the pricer holds models[which] in its public
+    attribute `attr`; expected[which][i] = reference default intensity of models[which] at a_list[i] (computed without any
+    pricer object; scales: sum of the absolute inclusion-exclusion terms, the scale of its rounding error). The pricer is used (all thresholds) before every operation; after the history its theta, survival
+    probability and par spread must be those of the model it holds NOW.
+      reassign      pricer.<attr> = the other model (public attribute re-assigned, as `payoff.spread = s2`)
+      other-pricer  a second pricer of the class on the other model is built and used in between
+      deepcopy      the pricer is replaced by its deepcopy
+      formulas      every public method of the pricer is called in between"""
+    R = RECOVERIES[-1]
+    name = "first_to_default_par_spread" if is_copula else "cds_spread"
+    arg = (lambda a: list(a)) if is_copula else (lambda a: a)
+
+    def use(p):
+        for a in a_list:
+            float(p._theta(arg(a)))
+
+    for hist in _histories(PRICER_OPS, 2)[1:]:
+        which = 0
+        try:
+            p = make_pricer(models[0])
+            for op in hist:
+                use(p)
+                if op == "reassign":
+                    which = 1 - which
+                    setattr(p, attr, models[which])
+                elif op == "other-pricer":
+                    use(make_pricer(models[1 - which]))
+                elif op == "deepcopy":
+                    p = copy.deepcopy(p)
+                elif op == "formulas":
+                    a = arg(a_list[0])
+                    float(p.survival_probability(a, MATURITIES[0]))
+                    if is_copula:
+                        s0 = float(p.first_to_default_par_spread(levels_a=a, recovery_rate=R))
+                    else:
+                        s0 = float(p.cds_spread(level_a=a, recovery_rate=R))
+                        float(p.implied_cds_threshold(cds_spread=s0, recovery_rate=R, h0=1e-6))
+                    if r is not None:
+                        float(p.implied_cds_spread(pv=0.0, level_a=a, recovery_rate=R, maturity=MATURITIES[0]))
+            sh.cls("pricer-history-depth-" + str(len(hist)))
+            for i, a in enumerate(a_list):
+                ref = expected[which][i]
+                sc = None if scales is None else scales[which][i]
+                th = float(p._theta(arg(a)))
+                sp = float(p.survival_probability(arg(a), MATURITIES[0]))
+                s0 = float(getattr(p, name)(arg(a), recovery_rate=R))
+                obs.add(th, sp, s0)
+                for what, got, exp_ in (("_theta", th, ref), ("survival_probability", sp, math.exp(-ref * MATURITIES[0])),
+                                        (name, s0, (1.0 - R) * ref)):
+                    sh.count("evaluations")
+                    sh.count("pricer_history_comparisons")
+                    if not core.close(got, exp_, rtol=RTOL, scale=None if sc is None else max(sc, abs(exp_))):
+                        sh.violation(f"C19:history:{comp}.{what}:not-of-the-model-held-now:after={_hist_label(hist)}:{icls}",
+                                     f"{comp} after [{_hist_label(hist)}] holds model #{which}: {what}({a}) = {got!r}, reference of that "
+                                     f"model = {exp_!r}", {"a": a, "history": list(hist), "got": got, "expected": exp_, "holds": which})
+        except Exception as e:
+            sh.violation(f"C19:history:{comp}:raises-{type(e).__name__}:{icls}", f"{type(e).__name__}: {e} (history [{_hist_label(hist)}])",
+                         {"history": list(hist)})
+
+
+CHAIN_OPS = ("second-chain-same-grid", "initialisation", "deepcopy", "reset-cost", "other-chain", "sample")
+
+
+def _credit_product(model, a, is_copula):
+    """the product of the benchmark scripts: CDS on the (first-to-)default time"""
+    from rpylib.product.payoff import CDS
+    from rpylib.product.product import Product
+    from rpylib.product.underlying import DefaultTime, NthDefaultTimes
+
+    und = NthDefaultTimes(default_levels=list(a), index=1) if is_copula else DefaultTime(default_level=a)
+    T = MATURITIES[0]
+    return Product(payoff_underlying=und, payoff=CDS(recovery_rate=RECOVERIES[-1], spread=SPREADS[0], maturity=T, discounting=model.df),
+                   maturity=T, notional=NOTIONAL)
+
+
+def _chain_op(op, proc, grid, make_chain, make_other_grid, product):
+    """one operation of CHAIN_OPS on the chain `proc` living on `grid`; returns the (chain, grid) to be read next.
+      second-chain-same-grid  a second chain is built on the SAME grid object (and the same model object) and replaces the first
+      initialisation          proc.initialisation(product) - what Engine.price does before simulating
+      deepcopy                the chain is replaced by its deepcopy (its own copy of grid, model and sampler)
+      reset-cost              proc.reset_one_simulation_cost() and the sampler's reset_sampling_cost()
+      other-chain             a chain of the class for ANOTHER threshold (other grid object, same model object) is built, read
+                              (intensity) and dropped in between
+      sample                  the chain's sampler draws 16 states (global numpy generator seeded for the draw and restored;
+                              the drawn values are not observed)"""
+    if op == "second-chain-same-grid":
+        return make_chain(grid), grid
+    if op == "initialisation":
+        proc.initialisation(product)
+    elif op == "deepcopy":
+        proc = copy.deepcopy(proc)
+        grid = proc.grid
+    elif op == "reset-cost":
+        proc.reset_one_simulation_cost()
+        proc.sampling.reset_sampling_cost()
+    elif op == "other-chain":
+        float(make_chain(make_other_grid()).intensity_of_jumps)
+    elif op == "sample":
+        state = np.random.get_state()
+        try:
+            np.random.seed(19)
+            proc.sampling.sample(size=16)
+        finally:
+            np.random.set_state(state)
+    else:
+        raise ValueError(op)
+    return proc, grid
+
+
 # ----------------------------------------------------------------------------------------------------------------------
 # one dimension
 # ----------------------------------------------------------------------------------------------------------------------
@@ -383,31 +681,76 @@ def _cell(grid, st):
     return grid.middle(grid.left_point(st), val), grid.middle(val, grid.right_point(st))
 
 
+def _underlying_routes(make_und):
+    """the ways a default time is obtained from ONE kind of underlying object: name -> (callable(times, log jump path), object).
+    Besides the two entry points on a fresh object: the object after Underlying.update(LOG) (what Product.update does for a
+    log-represented process: `value` becomes `_value_log`), after update(LOG) then update(IDENDITY) (a product re-used with a
+    process of the other representation), the deepcopy of an updated object (what the path managers / pool workers get), and
+    the engine's route Product.underlying_value (keyword arguments), fresh and after Product.update(LOG) on a deepcopy."""
+    from rpylib.process.process import ProcessRepresentation as PR
+    from rpylib.product.payoff import CDS
+    from rpylib.product.product import Product
+
+    u0 = make_und()
+    u1 = make_und()
+    u1.update(PR.LOG)
+    u2 = make_und()
+    u2.update(PR.LOG)
+    u2.update(PR.IDENDITY)
+    u3 = make_und()
+    u3.update(PR.LOG)
+    u3 = copy.deepcopy(u3)
+    T = MATURITIES[0]
+    p4 = Product(payoff_underlying=make_und(), maturity=T, notional=NOTIONAL,
+                 payoff=CDS(recovery_rate=RECOVERIES[-1], spread=SPREADS[0], maturity=T, discounting=lambda t: math.exp(-0.02 * t)))
+    p5 = copy.deepcopy(p4)
+    p5.update(PR.LOG)
+    return [("_value_log", lambda t, lp: u0._value_log(t, None, lp)),
+            ("value", lambda t, lp: u0.value(t, None, np.exp(lp))),
+            ("update(LOG).value", lambda t, lp: u1.value(t, None, lp)),
+            ("update(LOG)+update(IDENDITY).value", lambda t, lp: u2.value(t, None, np.exp(lp))),
+            ("update(LOG)+deepcopy.value", lambda t, lp: u3.value(t, None, lp)),
+            ("Product.underlying_value", lambda t, lp: p4.underlying_value(times=t, path=np.exp(lp), jump_path=np.exp(lp))),
+            ("Product.update(LOG).underlying_value", lambda t, lp: p5.underlying_value(times=t, path=lp, jump_path=lp))]
+
+
 def _scripted_default_times_1d(sh, obs, grid, a, o, thorough):
     from rpylib.product.underlying import DefaultTime
 
     ax = [float(x) for x in grid.axes[0]]
     states = [x for k, x in enumerate(ax) if k != o and abs(x - a) > 1e-9]
-    und = DefaultTime(default_level=a)
-    for n in range(1, (3 if thorough else 2) + 1):
+    routes = _underlying_routes(lambda: DefaultTime(default_level=a))
+    # a second object of the class with another threshold (between the states a+eps and -h), used in between on every path
+    a_b = 0.5 * (ax[2] + ax[3])
+    und_b = DefaultTime(default_level=a_b)
+    for n in range(0, (3 if thorough else 2) + 1):  # n = 0: the path without any jump
         times = np.array([0.0] + [0.3 * (j + 1) for j in range(n)] + [0.3 * n + 0.5])
         for seq in itertools.product(states, repeat=n):
             logp = np.concatenate(([0.0], np.cumsum(seq), [float(np.sum(seq))]))
             first = next((j for j, x in enumerate(seq) if x < a), None)
             exp_ = INF if first is None else float(times[first + 1])
-            for via in ("_value_log", "value"):
-                if via == "_value_log":
-                    got = und._value_log(times, None, logp)
-                else:
-                    got = und.value(times, None, np.exp(logp))
-                got = float(got)
+            first_b = next((j for j, x in enumerate(seq) if x < a_b), None)
+            exp_b = INF if first_b is None else float(times[first_b + 1])
+            entry_ok = True
+            for k_route, (via, fun) in enumerate(routes):
+                if k_route >= 2 and not entry_ok:
+                    break  # wrong already on the fresh object: reported once, not once per route
+                got = float(fun(times, logp))
                 obs.add(got)
                 sh.count("evaluations")
                 sh.count("scripted_paths")
                 if got != exp_:
+                    entry_ok = False
                     sh.violation(f"C19:default-time:DefaultTime:ne-first-jump-below-threshold:via={via}",
                                  f"DefaultTime({a}).{via} on jumps {list(seq)} at times {times.tolist()} = {got}, expected {exp_}",
                                  {"a": a, "jumps": list(seq), "times": times.tolist(), "got": got, "expected": exp_})
+                if via == "_value_log":
+                    got_b = float(und_b._value_log(times, None, logp))
+                    sh.count("evaluations")
+                    if got_b != exp_b:
+                        sh.violation("C19:default-time:DefaultTime:ne-first-jump-below-threshold:via=_value_log:second-object",
+                                     f"DefaultTime({a_b})._value_log on jumps {list(seq)} at times {times.tolist()} = {got_b}, expected {exp_b}",
+                                     {"a": a_b, "jumps": list(seq), "times": times.tolist(), "got": got_b, "expected": exp_b})
 
 
 def _one_dim(sh, case, obs):
@@ -433,6 +776,7 @@ def _one_dim(sh, case, obs):
     cf = CFLevyModel(model)
     theta_of = {}
     lib_thetas = []
+    deep_histories_at = None  # the chain histories of depth 2 are run at the first threshold inside the alphabet
     for i, fr in enumerate(FRACS):
         a = float(fr * l)
         if not (l < a < -h):
@@ -521,8 +865,10 @@ def _one_dim(sh, case, obs):
             except Exception as e:
                 sh.violation(f"C19:box-rate:CFLevyModel:raises-{type(e).__name__}:{icls}", f"truncated _theta({a}): {type(e).__name__}: {e}", {"a": a})
                 continue
-            try:
-                und = DefaultTime(default_level=a)
+            und = DefaultTime(default_level=a)
+
+            def chain_sums(proc, grid, judge_underlying=False):
+                """the three notions of 'total rate of the states below the threshold' of one chain object"""
                 q_vec = create_q_vector(proc.model.levy_triplet.nu, grid)
                 closure = getattr(proc.sampling, "probability_to_jump_to_state", None)
                 lam = float(proc.intensity_of_jumps)
@@ -530,13 +876,14 @@ def _one_dim(sh, case, obs):
                 if closure is not None:
                     sums["sampler"] = 0.0
                 n_default = 0
-                for k, x in enumerate(ax):
+                for k, x in enumerate(float(y) for y in grid.axes[0]):
                     if k == o:
                         continue
-                    fires = float(und._value_log(np.array([0.0, 1.0]), None, np.array([0.0, x]))) == 1.0
-                    if fires != (x < a):
-                        sh.violation("C19:default-time:DefaultTime:ne-first-jump-below-threshold:via=_value_log",
-                                     f"single jump {x} with threshold {a}: default fired = {fires}", {"a": a, "jump": x})
+                    if judge_underlying:
+                        fires = float(und._value_log(np.array([0.0, 1.0]), None, np.array([0.0, x]))) == 1.0
+                        if fires != (x < a):
+                            sh.violation("C19:default-time:DefaultTime:ne-first-jump-below-threshold:via=_value_log",
+                                         f"single jump {x} with threshold {a}: default fired = {fires}", {"a": a, "jump": x})
                     if not x < a:
                         continue
                     n_default += 1
@@ -545,24 +892,68 @@ def _one_dim(sh, case, obs):
                     sums["q-vector"] += float(q_vec[k])
                     if closure is not None:
                         sums["sampler"] += float(closure(k - o)) * lam
+                return sums, n_default
+
+            def judge_sums(sums, n_default, hist):
+                after = f":after={_hist_label(hist)}" if hist else ""
+                ok = True
+                for via, tot in sums.items():
+                    obs.add(tot)
+                    sh.count("evaluations")
+                    sh.count("box_rate_comparisons")
+                    if not core.close(tot, theta_box, rtol=RTOL):
+                        ok = False
+                        sh.violation(f"C19:box-rate:MarkovChainProcess:default-rate-ne-box-intensity:via={via}:{icls}{after}",
+                                     f"sum of rates of the {n_default} states below a={a} = {tot!r}, closed form of the truncated model = {theta_box!r} "
+                                     f"(axis {ax}, history [{_hist_label(hist)}])",
+                                     {"a": a, "h": h, "symmetric": sym, "axis": ax, "rate": tot, "theta_box": theta_box, "via": via,
+                                      "history": list(hist)})
+                    if q_box is not None and not core.close(tot, q_box, rtol=RTOL_Q):
+                        ok = False
+                        sh.violation(f"C19:box-rate:MarkovChainProcess:default-rate-ne-quadrature-of-density:via={via}:{icls}{after}",
+                                     f"sum of rates of the states below a={a} = {tot!r}, quadrature of nu over [l, a] = {q_box!r} "
+                                     f"(history [{_hist_label(hist)}])",
+                                     {"a": a, "h": h, "symmetric": sym, "axis": ax, "rate": tot, "quadrature": q_box, "via": via,
+                                      "history": list(hist)})
+                return ok
+
+            try:
+                sums, n_default = chain_sums(proc, grid, judge_underlying=True)
             except Exception as e:  # the library raising on a well-formed credit grid
                 sh.violation(f"C19:box-rate:MarkovChainProcess:raises-{type(e).__name__}:{icls}",
                              f"rates of the states of the chain on CTMCCredit(h={h}, a={a}): {type(e).__name__}: {e}", {"a": a, "h": h, "axis": ax})
                 continue
             sh.count("default_states", n_default)
             sh.outcome(("box", float(sums["mass"]).hex()))
-            for via, tot in sums.items():
-                obs.add(tot)
-                sh.count("evaluations")
-                sh.count("box_rate_comparisons")
-                if not core.close(tot, theta_box, rtol=RTOL):
-                    sh.violation(f"C19:box-rate:MarkovChainProcess:default-rate-ne-box-intensity:via={via}:{icls}",
-                                 f"sum of rates of the {n_default} states below a={a} = {tot!r}, closed form of the truncated model = {theta_box!r} "
-                                 f"(axis {ax})", {"a": a, "h": h, "symmetric": sym, "axis": ax, "rate": tot, "theta_box": theta_box, "via": via})
-                if q_box is not None and not core.close(tot, q_box, rtol=RTOL_Q):
-                    sh.violation(f"C19:box-rate:MarkovChainProcess:default-rate-ne-quadrature-of-density:via={via}:{icls}",
-                                 f"sum of rates of the states below a={a} = {tot!r}, quadrature of nu over [l, a] = {q_box!r}",
-                                 {"a": a, "h": h, "symmetric": sym, "axis": ax, "rate": tot, "quadrature": q_box, "via": via})
+            fresh_ok = judge_sums(sums, n_default, ())
+            if not fresh_ok:  # a chain that is wrong when fresh is reported once, not once per history
+                sh.count("histories_skipped_fresh_object_wrong")
+            # ------------------------------------------------------------ histories on the ONE chain / grid / model just used
+            a_oth = float(_other(FRACS, fr) * l)
+            for hist in (_histories(CHAIN_OPS, 2 if (sym and deep_histories_at in (None, a)) else 1)[1:] if fresh_ok else []):
+                deep_histories_at = a if sym else deep_histories_at
+                try:
+                    g = S.CTMCCredit(h=h, level_a=a, model=model, symmetric_grid=sym)
+                    pr = MarkovChainProcess(model=model, method=SamplingMethod.INVERSION, grid=g)
+                    for op in hist:
+                        chain_sums(pr, g)  # the chain is read before every operation
+                        pr, g = _chain_op(op, pr, g, lambda grid_: MarkovChainProcess(model=model, method=SamplingMethod.INVERSION, grid=grid_),
+                                          lambda: S.CTMCCredit(h=h, level_a=a_oth, model=model, symmetric_grid=sym)
+                                          if l < a_oth < -h else S.CTMCCredit(h=h, level_a=a, model=model, symmetric_grid=sym),
+                                          _credit_product(model, a, is_copula=False))
+                    sh.cls("chain-history-depth-" + str(len(hist)))
+                    s2, n2 = chain_sums(pr, g)
+                    sh.count("evaluations")
+                    if n2 != n_default or [float(x) for x in g.axes[0]] != ax:
+                        sh.violation(f"C19:history:CTMCCredit:states-changed:after={_hist_label(hist)}:d=1",
+                                     f"after [{_hist_label(hist)}] the axis is {[float(x) for x in g.axes[0]]}, it was {ax}",
+                                     {"a": a, "h": h, "history": list(hist), "model": icls})
+                        continue
+                    judge_sums(s2, n2, hist)
+                except Exception as e:
+                    sh.violation(f"C19:history:MarkovChainProcess:raises-{type(e).__name__}:after={_hist_label(hist)}:{icls}",
+                                 f"{type(e).__name__}: {e} (history [{_hist_label(hist)}] on CTMCCredit(h={h}, a={a}, symmetric={sym}))",
+                                 {"a": a, "h": h, "history": list(hist)})
             if sym:
                 _scripted_default_times_1d(sh, obs, grid, a, o, thorough)
             sh.sample({"sub": "one-dim", "model": A.model_label(spec), "h": h, "a": a, "axis": ax, "default_rate": sums["mass"],
@@ -606,6 +997,26 @@ def _one_dim(sh, case, obs):
             sh.violation(f"C19:formula:CFLevyModel.implied_cds_threshold:raises-{type(e).__name__}:{icls}", f"{type(e).__name__}: {e}",
                          {"spread": s, "R": R})
     _check_monotone(sh, "CFLevyModel", icls, 1, theta_of)
+    # -------------------------------------------------------------------- histories on one pricer object
+    if lib_thetas:
+        try:
+            model2 = A.make_model(_other_model_spec(spec))
+            a_list = [a for a, _ in lib_thetas]
+            expected = [[float(m.levy_triplet.nu.integrate(-INF, a)) for a in a_list] for m in (model, model2)]
+        except Exception as e:
+            sh.violation(f"C19:history:CFLevyModel:raises-{type(e).__name__}:{icls}", f"references: {type(e).__name__}: {e}", None)
+        else:
+            fresh_ok = True
+            for (a, theta), ref in zip(lib_thetas, expected[0]):  # the reference of the held model is the one (ii) judged
+                sh.count("evaluations")
+                if not core.close(theta, ref, rtol=RTOL):
+                    fresh_ok = False
+                    sh.violation(f"C19:theta:CFLevyModel:ne-union-mass:oracle=integrate:{icls}",
+                                 f"_theta({a}) = {theta!r}, nu.integrate(-inf, a) = {ref!r}", {"a": a, "theta": theta, "integrate": ref})
+            if fresh_ok:  # a pricer that is wrong when fresh is reported once, not once per history
+                _pricer_histories(sh, obs, "CFLevyModel", icls, "model", CFLevyModel, [model, model2], expected, a_list, r, False)
+            else:
+                sh.count("histories_skipped_fresh_object_wrong")
     # -------------------------------------------------------------------- (v)
     if r is not None and lib_thetas:
         _check_cds_payoff(sh, obs, model.df, r, icls, lib_thetas,
@@ -651,7 +1062,7 @@ def _cf_copula(sh, case, obs):
 
     spec, h = case["model"], float(case["h"])
     icls = _cclass(spec)
-    model = A.make_copula_model(spec)
+    model = _make_copula_model(spec)
     d = model.dimension()
     nus = [m.levy_triplet.nu for m in model.models]
     sh.cls(f"d={d}")
@@ -709,6 +1120,22 @@ def _cf_copula(sh, case, obs):
             except Exception as e:
                 sh.violation(f"C19:formula:CFLevyCopulaModel:raises-{type(e).__name__}:{icls}", f"{type(e).__name__}: {e}", {"a": a})
     _check_monotone(sh, "CFLevyCopulaModel", icls, d, theta_of)
+    if lib_thetas:
+        try:
+            model2 = _make_copula_model(spec, reverse=True)
+            nus2 = [m.levy_triplet.nu for m in model2.models]
+            a_list = [a for a, _ in lib_thetas[:2]]
+            refs = [[_union_mass_ref(m.copula, n, a) for a in a_list] for m, n in ((model, nus), (model2, nus2))]
+            expected = [[x[0] for x in row] for row in refs]
+            scales = [[x[1] for x in row] for row in refs]
+        except Exception as e:
+            sh.violation(f"C19:history:CFLevyCopulaModel:raises-{type(e).__name__}:{icls}", f"references: {type(e).__name__}: {e}", None)
+        else:
+            if all(core.close(th, ref_, rtol=RTOL, scale=sc) for (_, th), ref_, sc in zip(lib_thetas[:2], expected[0], scales[0])):
+                _pricer_histories(sh, obs, "CFLevyCopulaModel", icls, "levy_copula_model", CFLevyCopulaModel, [model, model2], expected,
+                                  a_list, r, True, scales)
+            else:  # a pricer that is wrong when fresh was reported by (ii): once, not once per history
+                sh.count("histories_skipped_fresh_object_wrong")
     if r is not None and lib_thetas:
         _check_cds_payoff(sh, obs, model.df, r, icls, lib_thetas[:2],
                           lambda pv, a, R, T: cf.implied_cds_spread(pv=pv, level_a=list(a), recovery_rate=R, maturity=T))
@@ -725,12 +1152,20 @@ def _scripted_default_times_nd(sh, obs, grid, a, d):
     from rpylib.product.underlying import DefaultTimeNthUnderlying, NthDefaultTimes
 
     a = [float(x) for x in a]
+    a_rev = a[::-1]
     o = [int(c) for c in grid.origin_coordinate]
     axes = [[float(x) for x in ax] for ax in grid.axes]
-    unds = [("NthDefaultTimes", n, NthDefaultTimes(default_levels=list(a), index=n)) for n in range(1, d + 1)]
-    unds += [("DefaultTimeNthUnderlying", k, DefaultTimeNthUnderlying(default_levels=list(a), underlying_index=k)) for k in range(1, d + 1)]
-    # menu: every chain state as a single jump; every ordered pair of "corner" states (each coordinate just below / just above
-    # its threshold, or no move)
+    # (name, index, thresholds, routes). The last objects of each class carry OTHER thresholds (the reversed tuple) and are used
+    # in between on every path: a leak of one object's thresholds into another object of the class shows on either
+    unds = [("NthDefaultTimes", n, a, _underlying_routes(lambda: NthDefaultTimes(default_levels=list(a), index=n))) for n in range(1, d + 1)]
+    unds += [("DefaultTimeNthUnderlying", k, a, _underlying_routes(lambda: DefaultTimeNthUnderlying(default_levels=list(a), underlying_index=k)))
+             for k in range(1, d + 1)]
+    if a_rev != a:
+        unds.append(("NthDefaultTimes", 1, a_rev, _underlying_routes(lambda: NthDefaultTimes(default_levels=list(a_rev), index=1))[:1]))
+        unds.append(("DefaultTimeNthUnderlying", 1, a_rev,
+                     _underlying_routes(lambda: DefaultTimeNthUnderlying(default_levels=list(a_rev), underlying_index=1))[:1]))
+    # menu: the path without any jump; every chain state as a single jump; every ordered pair of "corner" states (each
+    # coordinate just below / just above its threshold, or no move)
     singles = [tuple(axes[k][i] for k, i in enumerate(idx)) for idx in itertools.product(*[range(len(ax)) for ax in axes])
                if list(idx) != o]
     corner_axis = []
@@ -739,30 +1174,45 @@ def _scripted_default_times_nd(sh, obs, grid, a, d):
         above = min(x for x in axes[k] if x > a[k])
         corner_axis.append([below, above, 0.0])
     corners = [c for c in itertools.product(*corner_axis) if any(x != 0.0 for x in c)]
-    seqs = [(s,) for s in singles] + list(itertools.product(corners, repeat=2))
+    seqs = [()] + [(s,) for s in singles] + list(itertools.product(corners, repeat=2))
+    # the routes through update() / deepcopy / Product concern the state of the underlying object, not the path: they are
+    # evaluated on the sequences of at most two "full corner" jumps (every coordinate just below or just above its threshold)
+    full = set(c for c in corners if all(x != 0.0 for x in c))
     for seq in seqs:
+        all_routes = all(c in full for c in seq)
         n = len(seq)
         times = np.array([0.0] + [0.3 * (j + 1) for j in range(n)] + [0.3 * n + 0.5])
-        jumps = np.array(seq, dtype=float).T  # (d, n)
-        if np.any(np.abs(jumps - np.array(a)[:, None]) < 1e-9):
-            continue
+        jumps = np.array(seq, dtype=float).T if n else np.zeros((d, 0))  # (d, n)
         cum = np.cumsum(jumps, axis=1)
-        logp = np.concatenate((np.zeros((d, 1)), cum, cum[:, -1:]), axis=1)
-        firsts = []
-        for k in range(d):
-            f = next((j for j in range(n) if jumps[k, j] < a[k]), None)
-            firsts.append(INF if f is None else float(times[f + 1]))
-        for name, which, und in unds:
+        logp = np.concatenate((np.zeros((d, 1)), cum, cum[:, -1:] if n else np.zeros((d, 1))), axis=1)
+        firsts_of = {}
+        for thr in (a, a_rev):
+            if np.any(np.abs(jumps - np.array(thr)[:, None]) < 1e-9):
+                continue  # log / exp round trip of `value` next to a threshold: outside the alphabet
+            firsts = []
+            for k in range(d):
+                f = next((j for j in range(n) if jumps[k, j] < thr[k]), None)
+                firsts.append(INF if f is None else float(times[f + 1]))
+            firsts_of[tuple(thr)] = firsts
+        for name, which, thr, routes in unds:
+            firsts = firsts_of.get(tuple(thr))
+            if firsts is None:
+                continue
             exp_ = sorted(firsts)[which - 1] if name == "NthDefaultTimes" else firsts[which - 1]
-            for via in ("_value_log", "value"):
-                got = float(und._value_log(times, None, logp) if via == "_value_log" else und.value(times, None, np.exp(logp)))
+            second = ":second-object" if thr is a_rev else ""
+            entry_ok = True
+            for k_route, (via, fun) in enumerate(routes if all_routes else routes[:2]):
+                if k_route >= 2 and not entry_ok:
+                    break  # wrong already on the fresh object: reported once, not once per route
+                got = float(fun(times, logp))
                 obs.add(got)
                 sh.count("evaluations")
                 sh.count("scripted_paths")
                 if got != exp_:
-                    sh.violation(f"C19:default-time:{name}:ne-first-jump-below-threshold:via={via}",
-                                 f"{name}({a}, {which}).{via} on jumps {jumps.tolist()} at times {times.tolist()} = {got}, expected {exp_}",
-                                 {"a": a, "which": which, "jumps": jumps.tolist(), "times": times.tolist(), "got": got, "expected": exp_})
+                    entry_ok = False
+                    sh.violation(f"C19:default-time:{name}:ne-first-jump-below-threshold:via={via}{second}",
+                                 f"{name}({thr}, {which}).{via} on jumps {jumps.tolist()} at times {times.tolist()} = {got}, expected {exp_}",
+                                 {"a": thr, "which": which, "jumps": jumps.tolist(), "times": times.tolist(), "got": got, "expected": exp_})
 
 
 def _chain_copula(sh, case, obs):
@@ -774,7 +1224,7 @@ def _chain_copula(sh, case, obs):
     spec, h, sym = case["model"], float(case["h"]), bool(case["symmetric"])
     icls = _cclass(spec) + (":sym" if sym else ":asym")
     comp = "MarkovChainLevyCopula"
-    model = A.make_copula_model(spec)
+    model = _make_copula_model(spec)
     d = model.dimension()
     nus = [m.levy_triplet.nu for m in model.models]
     l, rr = (float(x) for x in S.compute_truncation(model=model, h=h))
@@ -826,7 +1276,9 @@ def _chain_copula(sh, case, obs):
             sh.violation(f"C19:grid:CTMCCredit:threshold-not-on-cell-boundary:{icls}",
                          f"axis {k}: middle({axes[k][below]}, {axes[k][below + 1]}) = {mid!r}, threshold {a[k]!r}", {"a": a, "axis": axes[k]})
     # ------------------------------------------------------------------------ (i)
-    try:
+    def chain_sums(proc, grid):
+        """the notions of 'total rate of the states with a coordinate below its threshold' of one chain object"""
+        axes_ = [[float(x) for x in ax] for ax in grid.axes]
         lam = float(proc.intensity_of_jumps)
         samp = proc.sampling
         closure = getattr(samp, "probability_to_jump_to_state", None)
@@ -836,10 +1288,10 @@ def _chain_copula(sh, case, obs):
         if closure is not None or bucket_p is not None:
             sums["sampler"] = 0.0
         n_default = 0
-        for idx in itertools.product(*[range(len(ax)) for ax in axes]):
+        for idx in itertools.product(*[range(len(ax)) for ax in axes_]):
             if idx == o:
                 continue
-            if not any(axes[k][i] < a[k] for k, i in enumerate(idx)):
+            if not any(axes_[k][i] < a[k] for k, i in enumerate(idx)):
                 continue
             n_default += 1
             lo, hi = _cell(grid, Coordinates(idx))
@@ -848,6 +1300,10 @@ def _chain_copula(sh, case, obs):
                 sums["sampler"] += float(closure(tuple(i - c for i, c in zip(idx, o)))) * lam
             elif bucket_p is not None:
                 sums["sampler"] += float(bucket_p(tuple(lo), tuple(hi))) * lam_s
+        return sums, n_default, axes_
+
+    try:
+        sums, n_default, _ = chain_sums(proc, grid)
     except Exception as e:  # the library raising on a well-formed credit grid
         sh.violation(f"C19:box-rate:{comp}:raises-{type(e).__name__}:{icls}",
                      f"rates of the states of the chain on CTMCCredit(h={h}, a={a}, symmetric={sym}): {type(e).__name__}: {e}", {"a": a, "h": h})
@@ -856,14 +1312,52 @@ def _chain_copula(sh, case, obs):
     ref, sabs = _box_intensity_ref(model.copula, nus, box, a)
     sh.nontriv()
     sh.outcome(("box", float(sums["mass"]).hex()))
-    for via, tot in sums.items():
-        obs.add(tot)
-        sh.count("evaluations")
-        sh.count("box_rate_comparisons")
-        if not core.close(tot, ref, rtol=RTOL, scale=sabs):
-            sh.violation(f"C19:box-rate:{comp}:default-rate-ne-box-intensity:via={via}:{icls}",
-                         f"sum of rates of the {n_default} default states = {tot!r}, inclusion-exclusion of the joint measure on the box = {ref!r} "
-                         f"(a={a}, h={h})", {"a": a, "h": h, "symmetric": sym, "axes": axes, "rate": tot, "box_intensity": ref, "via": via})
+
+    def judge_sums(sums, n_default, hist):
+        after = f":after={_hist_label(hist)}" if hist else ""
+        ok = True
+        for via, tot in sums.items():
+            obs.add(tot)
+            sh.count("evaluations")
+            sh.count("box_rate_comparisons")
+            if not core.close(tot, ref, rtol=RTOL, scale=sabs):
+                ok = False
+                sh.violation(f"C19:box-rate:{comp}:default-rate-ne-box-intensity:via={via}:{icls}{after}",
+                             f"sum of rates of the {n_default} default states = {tot!r}, inclusion-exclusion of the joint measure on the box = {ref!r} "
+                             f"(a={a}, h={h}, history [{_hist_label(hist)}])",
+                             {"a": a, "h": h, "symmetric": sym, "axes": axes, "rate": tot, "box_intensity": ref, "via": via, "history": list(hist)})
+        return ok
+
+    fresh_ok = judge_sums(sums, n_default, ())
+    if not fresh_ok:  # a chain that is wrong when fresh is reported once, not once per history
+        sh.count("histories_skipped_fresh_object_wrong")
+    # ------------------------------------------------------------------------ one cumulative history on the chain / grid / model just used:
+    # the operations of CHAIN_OPS one after another, the rates re-read after each
+    # (object state does not depend on where the thresholds are: the unequal threshold tuple of each model / h / grid shape)
+    if fresh_ok and case["fracs"] == FRACS[::-1][:d]:
+        a_oth = list(a)[::-1]
+        g, pr = grid, proc  # the chain read above; the operations accumulate on it in the order of the menu
+        for n_ops in range(1, len(CHAIN_OPS) + 1):
+            hist = CHAIN_OPS[:n_ops]
+            try:
+                with _no_vol_adjustment_pool():
+                    for op in hist[-1:]:
+                        pr, g = _chain_op(op, pr, g, lambda grid_: MarkovChainLevyCopula(levy_copula_model=model, grid=grid_, method=method),
+                                          lambda: S.CTMCCredit(h=h, level_a=a_oth, model=model, symmetric_grid=sym),
+                                          _credit_product(model, a, is_copula=True))
+                sh.cls("chain-history-depth-" + str(len(hist)))
+                s2, n2, axes2 = chain_sums(pr, g)
+                sh.count("evaluations")
+                if n2 != n_default or axes2 != axes:
+                    sh.violation(f"C19:history:CTMCCredit:states-changed:after={_hist_label(hist)}:d={d}",
+                                 f"after [{_hist_label(hist)}] the axes are {axes2}, they were {axes}", {"a": a, "h": h, "history": list(hist), "model": icls})
+                    continue
+                if not judge_sums(s2, n2, hist):
+                    break  # the later operations would repeat the same finding
+            except Exception as e:
+                sh.violation(f"C19:history:{comp}:raises-{type(e).__name__}:after={_hist_label(hist)}:{icls}",
+                             f"{type(e).__name__}: {e} (history [{_hist_label(hist)}] on CTMCCredit(h={h}, a={a}, symmetric={sym}))",
+                             {"a": a, "h": h, "history": list(hist)})
     sh.sample({"sub": "chain-copula", "model": icls, "h": h, "a": a, "default_states": n_default, "default_rate": sums["mass"],
                "box_intensity": ref})
     # ------------------------------------------------------------------------ the default region is the underlyings' rule
